@@ -177,7 +177,7 @@ class Obligation:
             if r5 == "unsat":
                 self.solver, self.time_s, self.status = "cvc5", 0.0, "discharged"
                 return self.status
-        res = smt.check_sat(fs, timeout_ms=timeout_ms, seed=seed, use_cvc5=not fast)
+        res = smt.check_sat(fs, timeout_ms=(timeout_ms // 2 if fast else timeout_ms), seed=seed, use_cvc5=not fast)
         tries = 0
         while res.status == "unknown" and tries < 2 and not fast:
             # solver instability guard: a different seed and a larger budget before giving up
